@@ -179,6 +179,13 @@ def safe_run(prop, spec):
             if use_alarm:
                 signal.alarm(0)
     except CaseTimeout:
+        try:  # keep the spec for inspection (tools/slow.py); never part of the verdict
+            d = os.path.join(VERIF, "out", "timeouts")
+            os.makedirs(d, exist_ok=True)
+            with open(os.path.join(d, f"{prop.id}_{hashlib.sha1(canon(spec).encode()).hexdigest()[:10]}.json"), "w") as f:
+                json.dump({"property": prop.id, "spec": spec}, f)
+        except Exception:  # noqa
+            pass
         r = Result()
         r.rejected = "inconclusive: per-case time budget exceeded"
         r.classes.append("inconclusive_budget")
